@@ -93,6 +93,25 @@ CHECKS = {
         ],
         "floors": {"quick": {"semaphore": 5000, "maxjobs": 2000, "systemreqs": 10000}},
     },
+    "C07": {
+        "level": "exploration",
+        "engine": "E1",
+        "needs_bins": [],
+        "technique": "property-based testing (rapid): (A) generated accepted programs run at enforcement level 'error' with arbitrary conforming stage outputs, every delivered argument validated by an independent validator; (B) certainly-ill-typed single-point mutants must be rejected with an error located in the mutated call",
+        "level_text": ("A: the C01 program generator (weighted to composed conversions) x stage outputs with nulls at any depth, driven through the real Pipestance at "
+                       "EnforceError: no failure, every _args value validates against its parameter type under harness/refsem.Valid. B: ~1e5 mutants per run (wrong base type, "
+                       "array depth +-1, array vs map, unknown / missing parameter, missing / extra struct field, inconsistent split collections, reference to a missing output "
+                       "or field), each must give a compile error whose text names a line inside the mutated call. Exploration."),
+        "level_note": "Mutations that a documented coercion could make legal are not generated; acceptance completeness is not claimed (compiler rejections of generated programs are generator issues).",
+        "rule": ("A: rapid programs + schedules as for C01 at EnforceError with output null rate in {0,5,20}%; non-trivial: >= 1 job and >= 1 projection / sub-pipeline boundary / map call "
+                 "(an implicit conversion site exercised at run time). B: generated program x one ill-typed mutation; every mutant is non-trivial; distinct by hash of the source."),
+        "assumptions": _SEM_ASSUME,
+        "units": [
+            U("props/run", "TestC07Accept", (450, 8), (8000, 10)),
+            U("props/lang", "TestC07Reject", (12000, 6), (150000, 6)),
+        ],
+        "floors": {"quick": {"accept-run": 2000, "reject": 50000, "mut:split-mismatch:length": 500, "mut:wrong-literal:struct-missing-field": 300}},
+    },
     "C08": {
         "level": "exploration",
         "engine": "pure",
